@@ -402,6 +402,93 @@ def _roots(spec):
 def _colcount_hint(a):
     return a['opts'].get('columns')
 
+def sided(spec):
+    """naming options of relationships x the side(s) that declare them: yield (overlay tag, new spec)"""
+    ents = spec['entities']
+    # O4 many-to-many options x the side(s) of the relationship that declare them.  'first' / 'second' is the
+    # declaration order of the two attributes (for a symmetric attribute: the plain option / its reverse_* twin);
+    # the name order (which Pony uses to pick the side it processes) is flipped by the 'swapped' bases.
+    if any(a['cls'] == 'Set' and _rev(spec, a)['cls'] == 'Set' for e in ents for a in e['attrs']):
+        emitted = set([_key(spec)])
+        for variant in M2M_VARIANTS:
+            for side in SIDES:
+                if side == 'conflict' and variant not in ('table', 'table-qualified', 'columns'): continue
+                s = copy.deepcopy(spec); k = 0; seen = set()
+                for e in s['entities']:
+                    for a in e['attrs']:
+                        if a['cls'] != 'Set' or _rev(s, a)['cls'] != 'Set': continue
+                        key = tuple(sorted([(e['name'], a['name']), tuple(a['rev'])]))
+                        first = key not in seen; seen.add(key)
+                        if first: k += 1
+                        sym = a['rev'] == [e['name'], a['name']]
+                        mine = side in ('both', 'conflict') or (side == 'first') == first      # this attribute declares the option
+                        plain = mine if not sym else side != 'second'                            # symmetric: plain option
+                        twin = sym and side != 'first'                                           # symmetric: reverse_* option
+                        ab = 'a' if first else 'b'
+                        if variant == 'table':
+                            if plain: a['opts']['table'] = 'lnk_%d%s' % (k, 'x' if side == 'conflict' and not first else '')
+                        elif variant == 'table-qualified':
+                            if plain: a['opts']['table'] = 'lnk_%d' % k if side == 'conflict' and not first else ['main', 'lnk_%d' % k]
+                        elif variant == 'table-clash-entity':
+                            if plain: a['opts']['table'] = s['entities'][0]['name']
+                        elif variant == 'table-clash-m2m':
+                            if plain: a['opts']['table'] = 'lnk'
+                        elif variant == 'columns':
+                            if plain: a['opts']['columns'] = ['__cols__', 'm%d%s' % (k, 'a' if side == 'conflict' else ab)]
+                            if twin: a['opts']['reverse_columns'] = ['__cols__', 'm%d%s' % (k, 'a' if side == 'conflict' else 'r')]
+                        elif variant == 'fk-names':
+                            if plain: a['opts']['fk_name'] = 'fk_m%d%s' % (k, ab)
+                            if twin: a['opts']['reverse_fk_name'] = 'fk_m%dr' % k
+                        elif variant == 'index-names':
+                            if plain: a['opts']['index'] = 'ix_m%d%s' % (k, ab)
+                            if twin: a['opts']['reverse_index'] = 'ix_m%dr' % k
+                if variant == 'table-clash-m2m' and k < 2: continue
+                if _key(s) in emitted: continue          # nothing declared / same as another side choice
+                emitted.add(_key(s))
+                yield dict(overlay='m2m', variant=variant, side=side), s
+    # O5 column / fk_name / index name on to-one attributes x the side(s) that declare them
+    if any(a['rel'] and a['cls'] != 'Set' for e in ents for a in e['attrs']):
+        emitted = set([_key(spec)])
+        for variant in ('fk-name', 'index-name', 'same-fk-name-twice', 'column'):
+            for side in ('both', 'first', 'second'):
+                if variant == 'same-fk-name-twice' and side != 'both': continue
+                if variant == 'column' and side == 'both': continue          # = overlay 'column'
+                s = copy.deepcopy(spec); k = 0; seen = set()
+                for e in s['entities']:
+                    for a in e['attrs']:
+                        if not a['rel']: continue
+                        key = tuple(sorted([(e['name'], a['name']), tuple(a['rev'])]))
+                        first = key not in seen; seen.add(key)
+                        if a['cls'] == 'Set': continue
+                        k += 1
+                        if side != 'both' and (side == 'first') != first: continue
+                        if variant == 'fk-name': a['opts']['fk_name'] = 'fk_c%d' % k
+                        elif variant == 'same-fk-name-twice': a['opts']['fk_name'] = 'fk_same'
+                        elif variant == 'index-name': a['opts']['index'] = 'ix_c%d' % k
+                        else: a['opts']['columns'] = ['__cols__', 'c%d' % k]
+                if _key(s) in emitted: continue
+                emitted.add(_key(s))
+                yield dict(overlay='to-one-names', variant=variant, side=side), s
+
+def flip_names(spec):
+    """the same diagram with names chosen so that the alphabetical order of the two sides of every relationship is
+    the reverse of their declaration order (entities: ZAlpha > YBeta > ...; self-references: zchildren > parent)"""
+    names = [e['name'] for e in spec['entities']]
+    s = spec; changed = False
+    if len(names) > 1:
+        for i, n in enumerate(names): s = rename_entity(s, n, chr(ord('Z') - i) + n)
+        changed = True
+    for e in list(s['entities']):
+        for a in e['attrs']:
+            if a['rel'] and a['type'] == e['name'] and a['rev'][1] != a['name']:
+                b = _rev(s, a)
+                first = [x['name'] for x in e['attrs'] if x['name'] in (a['name'], b['name'])][0]
+                second = b['name'] if first == a['name'] else a['name']
+                if first < second:
+                    s = rename_attr(s, e['name'], first, 'z' + first); changed = True
+                    break
+    return s if changed else None
+
 def overlays(spec, quick):
     """yield (overlay tag, new spec) for one structural diagram"""
     ents = spec['entities']
@@ -429,44 +516,13 @@ def overlays(spec, quick):
                 else: nm = 'id' if n == 1 else 'c%d' % n
                 a['opts']['columns'] = ['__cols__', nm]       # resolved by resolve_columns() once widths are known
         yield dict(overlay='column', variant=variant), s
-    # O4 many-to-many options
-    if any(a['cls'] == 'Set' and _rev(spec, a)['cls'] == 'Set' for e in ents for a in e['attrs']):
-        for variant in ('table', 'table-qualified', 'table-one-side-only', 'columns', 'fk-names', 'table-clash-entity', 'index-names'):
-            s = copy.deepcopy(spec); k = 0; seen = set()
-            for e in s['entities']:
-                for a in e['attrs']:
-                    if a['cls'] != 'Set' or _rev(s, a)['cls'] != 'Set': continue
-                    key = tuple(sorted([(e['name'], a['name']), tuple(a['rev'])]))
-                    first = key not in seen; seen.add(key)
-                    if first: k += 1
-                    sym = a['rev'] == [e['name'], a['name']]
-                    if variant == 'table': a['opts']['table'] = 'lnk_%d' % k
-                    elif variant == 'table-qualified': a['opts']['table'] = ['main', 'lnk_%d' % k]
-                    elif variant == 'table-one-side-only':
-                        if first: a['opts']['table'] = 'lnk_%d' % k
-                    elif variant == 'table-clash-entity': a['opts']['table'] = s['entities'][0]['name']
-                    elif variant == 'columns':
-                        a['opts']['columns'] = ['__cols__', 'm%d%s' % (k, 'a' if first else 'b')]
-                        if sym: a['opts']['reverse_columns'] = ['__cols__', 'm%dr' % k]
-                    elif variant == 'fk-names':
-                        a['opts']['fk_name'] = 'fk_m%d%s' % (k, 'a' if first else 'b')
-                        if sym: a['opts']['reverse_fk_name'] = 'fk_m%dr' % k
-                    elif variant == 'index-names':
-                        a['opts']['index'] = 'ix_m%d%s' % (k, 'a' if first else 'b')
-                        if sym: a['opts']['reverse_index'] = 'ix_m%dr' % k
-            yield dict(overlay='m2m', variant=variant), s
-    # O5 fk_name / index name on to-one attributes
-    if any(a['rel'] and a['cls'] != 'Set' for e in ents for a in e['attrs']):
-        for variant in ('fk-name', 'index-name', 'same-fk-name-twice'):
-            s = copy.deepcopy(spec); k = 0
-            for e in s['entities']:
-                for a in e['attrs']:
-                    if not a['rel'] or a['cls'] == 'Set': continue
-                    k += 1
-                    if variant == 'fk-name': a['opts']['fk_name'] = 'fk_c%d' % k
-                    elif variant == 'same-fk-name-twice': a['opts']['fk_name'] = 'fk_same'
-                    else: a['opts']['index'] = 'ix_c%d' % k
-            yield dict(overlay='to-one-names', variant=variant), s
+    # O4/O5 options of relationships x declaring side(s), also with the name order of the two sides flipped
+    for otag, s in sided(spec): yield otag, s
+    flipped = flip_names(spec)
+    if flipped is not None:
+        for otag, s in sided(flipped):
+            if quick and otag.get('side') == 'both': continue
+            yield dict(otag, names='swapped'), s
     # O6 long / case-only entity names
     for L in (LENGTHS if not quick else (29, 30, 31, 62, 63, 64, 65)):
         s = spec
@@ -516,6 +572,13 @@ def overlays(spec, quick):
         if not e['pk'] and not any(a['cls'] == 'PrimaryKey' for a in e['attrs']):
             e['attrs'].insert(0, attr('id', 'PrimaryKey', 'int', auto=True, sequence_name='my_seq')); changed = True
     if changed: yield dict(overlay='sequence_name', variant='same-for-all'), s
+
+M2M_VARIANTS = ('table', 'table-qualified', 'table-clash-entity', 'table-clash-m2m', 'columns', 'fk-names', 'index-names')
+SIDES = ('both', 'first', 'second', 'conflict')
+
+def _key(spec):
+    import json
+    return json.dumps(spec['entities'], sort_keys=True)
 
 def _rev(spec, a):
     e = ent_by_name(spec)[a['rev'][0]]
